@@ -167,12 +167,25 @@ def check_range(acc, pendulum, z, f, span, sign, mode, unit, n, end_zone=None):
                      {"len": len(wk), "tail": wk[-2:]})
         return
     # containment by the operator's own definition
-    for x in got[:3] + got[-2:]:
-        acc.c["evaluations"] += 1
-        c1 = x in iv
+    import datetime as dt_
+    probes = list(got[:3] + got[-2:])
+    if z != "date" and got:
+        probes += [got[0].subtract(microseconds=1), got[-1].add(microseconds=1), got[-1].add(days=400)]
+    for x in probes:
+        # the same value as the pendulum object and as its native twin
+        if z == "date":
+            twins = (x, dt_.date(x.year, x.month, x.day))
+        else:
+            twins = (x, dt_.datetime(*obs.fields(x), tzinfo=x.tzinfo, fold=x.fold))
         c2 = iv.start <= x <= iv.end
-        if c1 != c2:
-            acc.mismatch("contains", "operator-definition", case, c1, c2)
+        for lbl, v in zip(("pendulum", "native"), twins):
+            acc.c["evaluations"] += 1
+            try:
+                c1 = v in iv
+            except Exception as e:  # noqa: BLE001
+                c1 = f"raises {type(e).__name__}"
+            if c1 != c2:
+                acc.mismatch("contains", f"operator-definition/{lbl}", case, c1, c2)
     for x in got:
         xi = obs.instant_us(x) if z != "date" else obs.wall_us((x.year, x.month, x.day, 0, 0, 0, 0))
         if not (min(s_i, e_i) <= xi <= max(s_i, e_i)):
